@@ -32,6 +32,7 @@ template<bool KEYED> struct ObjT
   bool operator<(const ObjT& o) const { return KEYED ? fdiv16(*p) < fdiv16(*o.p) : *p < *o.p; }
 };
 static inline int val(int x) { return x; }
+static inline int val(long x) { return (int)x; }
 template<bool K> static inline int val(const ObjT<K>& o) { return *o.p; }
 
 static void (*g_op)(long, vh::Tok&) = 0;
@@ -41,11 +42,7 @@ static void (*g_end)(long) = 0;
 // node containers (List<T>, PoolList<T>)
 // ---------------------------------------------------------------------------------------
 template<class T> static size_t stride(const List<T>&) { return sizeof(typename List<T>::Item); }
-// PoolList: item header + element, rounded up to pointer alignment (as allocateFreeItem does)
-template<class T> static size_t stride(const PoolList<T>&)
-{
-  return (sizeof(typename PoolList<T>::Item) + sizeof(T) + sizeof(void*) - 1) / sizeof(void*) * sizeof(void*);
-}
+template<class T> static size_t stride(const PoolList<T>&) { return sizeof(typename PoolList<T>::Item) + sizeof(T); }
 
 struct BlockRef { const char* base; long serial; };
 static int cmp_block(const void* a, const void* b)
@@ -364,10 +361,16 @@ template<class T> struct ArrayCase
 template<class T> typename ArrayCase<T>::C* ArrayCase<T>::v[NV];
 
 // ---------------------------------------------------------------------------------------
+// PoolList lays its items out at a stride of sizeof(Item) + sizeof(T): the element type used for
+// it must have a size that is a multiple of the pointer size, or every other item header is
+// misaligned (outside the statement of C03, see level_note).  The plain-integer kind is `long` there.
+template<class T> struct PoolElem { typedef T type; };
+template<> struct PoolElem<int> { typedef long type; };
+
 template<class T> static void start_kind(const char* cont)
 {
   if(!strcmp(cont, "list")) ListCase<T>::start();
-  else if(!strcmp(cont, "plist")) PListCase<T>::start();
+  else if(!strcmp(cont, "plist")) PListCase<typename PoolElem<T>::type>::start();
   else ArrayCase<T>::start();
 }
 
